@@ -564,7 +564,30 @@ def files_rule(chk, done):
         for rel, key in todo:
             same_as_reference(chk, "FILE", rel, key, "a function of a file this property is anchored in" if "#" not in key
                               else "a class- or module-level object of a file this property is anchored in", missing_ok=True)
+    defs_rule(chk, files, None)
     deps_rule(chk, done | set(todo))
+
+
+def defs_rule(chk, files, patterns):
+    """DEFS: no definition of the given files was removed, and none was added under a name the package already uses
+    (see equiv.definition_changes): such an edit changes which implementation a call picks — an override dropped from a
+    subclass, a default `copy()` removed from a base class, a hook (`__eq__`, `__reduce__`, `__getattr__`) added — while
+    every remaining function keeps its text and its fingerprint."""
+    import fnmatch
+    from ..equiv import definition_changes
+    found = []
+    for rel in files:
+        for kind, key in definition_changes(chk.repo, rel):
+            if key.split(".")[-1].split(":")[0] in DISPLAY_ONLY or key.endswith(("#log", "#__all__")):
+                continue
+            if patterns is not None and not any(fnmatch.fnmatchcase(key, p) for p in patterns.get(rel, ())):
+                continue
+            found.append((rel, kind, key))
+    chk.rule("DEFS", "no definition of the anchored (or directly read) files was removed, none added under a name already in use")
+    chk.inst("DEFS", "definitions-unchanged::" + ("anchored-files" if patterns is None else "dependencies"), not found,
+             f"{len(files)} files: the set of definitions is the reference one (or differs only by new names / in-place helpers)" if not found else
+             "; ".join(f"{rel}::{key} {kind}" for rel, kind, key in found[:6]) + " — changes which implementation is picked (override / shadowing / hook)",
+             found[0][0] if found else "")
 
 
 # DEP: what the anchored code reads directly outside the anchored files.  Found with the reference graph (cone.py, depth
@@ -682,6 +705,12 @@ def deps_rule(chk, done):
                 seen.add((rel, key))
                 todo.append((rel, key, why))
                 n += 1
+    pats = {}
+    for (rel, patterns), why in table:
+        if rel not in files:
+            pats.setdefault(rel, []).extend(patterns)
+    if pats:
+        defs_rule(chk, sorted(pats), pats)
     if not todo:
         return
     chk.rule("DEP", "what the anchored code reads directly outside the anchored files is proven equal to its reference version (E8)")
